@@ -113,7 +113,8 @@ FASTOR_INLINE typename Derived::scalar_type min(const AbstractTensor<Derived,DIM
     using T = typename Derived::scalar_type;
     using V = typename Derived::simd_vector_type;
     FASTOR_INDEX i;
-    T _scal=std::numeric_limits<T>::max(); V _vec(_scal);
+    // +infinity where the type has one: with max() a tensor whose elements are all +infinity returned max()
+    T _scal=std::numeric_limits<T>::has_infinity ? std::numeric_limits<T>::infinity() : std::numeric_limits<T>::max(); V _vec(_scal);
     for (i = 0; i < ROUND_DOWN(src.size(),V::Size); i+=V::Size) {
         _vec = min(src.template eval<T>(i),_vec);
     }
@@ -139,8 +140,9 @@ FASTOR_INLINE typename Derived::scalar_type max(const AbstractTensor<Derived,DIM
     using T = typename Derived::scalar_type;
     using V = typename Derived::simd_vector_type;
     FASTOR_INDEX i;
-    // lowest() and not min(): for floating point types min() is the smallest positive number
-    T _scal=std::numeric_limits<T>::lowest(); V _vec(_scal);
+    // lowest() and not min(): for floating point types min() is the smallest positive number;
+    // -infinity where the type has one: with lowest() a tensor whose elements are all -infinity returned lowest()
+    T _scal=std::numeric_limits<T>::has_infinity ? -std::numeric_limits<T>::infinity() : std::numeric_limits<T>::lowest(); V _vec(_scal);
     for (i = 0; i < ROUND_DOWN(src.size(),V::Size); i+=V::Size) {
         _vec = max(src.template eval<T>(i),_vec);
     }
